@@ -143,7 +143,9 @@ def run(ctx, col: Collector):
         col.check(bool(ab), 'C04-once', 'get_inline_references_for_sql:abstract-hosts-none', 'a join table hosts no inline references',
                   'get_inline_references_for_sql no longer returns [] for abstract (join) tables', node=gi.node, file=gi.file)
         # create_body renders them once
-        cb = idx.func('pydbml.renderer.sql.default.table', 'create_body')
+        from .common import expanded
+        from ..strctx import ANCHOR_HELPERS
+        cb = expanded(ctx, 'pydbml.renderer.sql.default.table', 'create_body', keep_extra=tuple(sorted(ANCHOR_HELPERS | {'_has_composite_pk'})))
         uses = [n for n in ast.walk(cb.node) if isinstance(n, ast.Call) and norm(n.func) == 'get_inline_references_for_sql']
         col.check(len(uses) == 1, 'C04-once', 'create_body:inline-refs-once', 'inline references are added to the table body exactly once',
                   f'create_body uses get_inline_references_for_sql {len(uses)} times', node=cb.node, file=cb.file)
